@@ -32,8 +32,9 @@ Definition z_in (c : c16_case) : option tree :=
   match n_pop (k_levels c) with O => None | S _ => Some (k_z c) end.
 
 Definition c16_events (c : c16_case) : list mev * option tree :=
-  run (traced c) (k_zshape c) (n_pop (k_levels c)) (k_skip c) (k_levels c) 0 [] (k_inputs c)
-      (z_in c).
+  let res := run (traced c) (k_zshape c) (n_pop (k_levels c)) (k_skip c) (k_levels c) 0 []
+                 (k_inputs c) {| th_z := z_in c; th_lab := lab0 |} in
+  (fst res, th_z (snd res)).
 
 Definition find_trace (st : mstate) (k : tkey) : option tstate :=
   option_map snd (find (fun kt => key_eqb k (fst kt)) (m_tr st)).
@@ -80,14 +81,18 @@ Fixpoint tree_of_V (v : V) : tree :=
 
 (* elements a level offers below environment e: stored non-empty elements of x, resp. those of
    x whose coordinate is also a stored non-empty element of y *)
-Definition ref_elems (s : src) (e : env) : list (Z * env) :=
-  match s with
-  | SFib x => map (fun ct => (fst ct, set_nth x (snd ct) e)) (offered (sub e x))
+Definition pcoord (L : level) (c : Z) : Z := match l_proj L with Some k => c + k | None => c end.
+Definition ref_off (L : level) (e : env) (x : nat) : fib :=
+  offered_f (l_ufmt L) (l_shape L) (sub e x).
+
+Definition ref_elems (L : level) (e : env) : list (Z * env) :=
+  match l_src L with
+  | SFib x => map (fun ct => (pcoord L (fst ct), set_nth x (snd ct) e)) (ref_off L e x)
   | SAnd x y =>
-    flat_map (fun ct => match lookup (fst ct) (offered (sub e y)) with
+    flat_map (fun ct => match lookup (fst ct) (ref_off L e y) with
                         | Some ty => [(fst ct, set_nth y ty (set_nth x (snd ct) e))]
                         | None => []
-                        end) (offered (sub e x))
+                        end) (ref_off L e x)
   end.
 
 (* the points of length i the nest reaches, in execution (= lexicographic) order *)
@@ -96,7 +101,7 @@ Fixpoint space (lv : list level) (i : nat) (pe : list (list Z * env)) : list (li
   | O, _ => pe
   | S i', L :: lv' =>
     space lv' i' (flat_map (fun q => map (fun ce => (fst q ++ [fst ce], snd ce))
-                                         (ref_elems (l_src L) (snd q))) pe)
+                                         (ref_elems L (snd q))) pe)
   | S _, [] => []
   end.
 
@@ -134,55 +139,77 @@ Fixpoint zdesc (t : tree) (p : list Z) : fib :=
 Definition addr (p : list Z) (c : Z) (pos : option Z) : row :=
   p ++ [c; match pos with Some j => j | None => -1 end].
 
+(* number of stored coordinates below c = the position c has / would get in the fiber *)
+Definition rank_in (c : Z) (zf : fib) : Z := lenZ (filter (fun ct => fst ct <? c) zf).
+Definition mem_fib (c : Z) (zf : fib) : bool := existsb (fun ct => fst ct =? c) zf.
+
+(* position of coordinate c in the fiber of operand x: its coordinate if the rank is
+   uncompressed, its index among the stored elements otherwise *)
+Definition pos_in (L : level) (e : env) (x : nat) (c : Z) : option Z :=
+  if l_ufmt L then Some c else index_in c (sub e x).
+
 (* coordinates + position part of the rows one traversal of level L below (p, e) must leave in
-   the trace (kind, label); zi / zf: the populated fiber at p before / after the run *)
-Definition expect_at (L : level) (kind label : Z) (zi zf : fib) (p : list Z) (e : env)
-  : list row :=
+   the trace (kind, label) of the level's own rank (srcrank = false) or of the rank of the
+   projected operand (srcrank = true); zi / zf: the populated fiber at p before / after the run *)
+Definition expect_at (L : level) (srcrank : bool) (kind label : Z) (zi zf : fib) (p : list Z)
+  (e : env) : list row :=
   let base := if l_pop L then 2 else 0 in
-  let els := ref_elems (l_src L) e in
-  if kind =? K_ITER then
-    if negb (label =? 0) then [] else
-    match l_pop L, l_src L with
-    | false, SFib x =>            (* eager fiber: position = index among the stored elements *)
+  let els := ref_elems L e in
+  let isproj := match l_proj L with Some _ => true | None => false end in
+  if srcrank then
+    (* the loop rank of a projected operand: the iter rows of its own (eager) traversal *)
+    if isproj && (kind =? K_ITER) && (label =? 0) then
+      match l_src L with
+      | SFib x => flat_map (fun jc => if is_empty 0 (snd (snd jc)) then []
+                              else [addr p (fst (snd jc)) (Some (fst jc))]) (enumZ (sub e x) 0)
+      | SAnd _ _ => []
+      end
+    else []
+  else if kind =? K_ITER then
+    if negb (label =? 0) || isproj then [] else
+    match l_pop L, l_src L, l_ufmt L with
+    | false, SFib x, false =>     (* eager fiber: position = index among the stored elements *)
       flat_map (fun jc => if is_empty 0 (snd (snd jc)) then []
                           else [addr p (fst (snd jc)) (Some (fst jc))]) (enumZ (sub e x) 0)
-    | _, _ =>                     (* lazy fiber: position = index in the stream it yields *)
+    | _, _, _ =>                  (* lazy fiber: index in the stream; uncompressed: coordinate *)
       map (fun jc => addr p (fst (snd jc)) (Some (fst jc))) (enumZ els 0)
     end
   else if kind =? K_INT then
     match l_src L with
     | SAnd x y =>
       if label =? base then
-        map (fun ct => addr p (fst ct) (index_in (fst ct) (sub e x)))
-            (touched (last_coord (offered (sub e y))) (offered (sub e x)))
+        map (fun ct => addr p (fst ct) (pos_in L e x (fst ct)))
+            (touched (last_coord (ref_off L e y)) (ref_off L e x))
       else if label =? base + 1 then
-        map (fun ct => addr p (fst ct) (index_in (fst ct) (sub e y)))
-            (touched (last_coord (offered (sub e x))) (offered (sub e y)))
+        map (fun ct => addr p (fst ct) (pos_in L e y (fst ct)))
+            (touched (last_coord (ref_off L e x)) (ref_off L e y))
       else []
     | SFib _ => []
     end
   else if kind =? K_POP then
     if l_pop L && (label =? 1) then
-      match l_src L with
-      | SFib x => map (fun ce => addr p (fst ce) (index_in (fst ce) (sub e x))) els
-      | SAnd _ _ => map (fun jc => addr p (fst (snd jc)) (Some (fst jc))) (enumZ els 0)
+      match l_src L, isproj with
+      | SFib x, false => map (fun ce => addr p (fst ce) (pos_in L e x (fst ce))) els
+      | _, _ => map (fun jc => addr p (fst (snd jc)) (Some (fst jc))) (enumZ els 0)
       end
     else []
   else if kind =? K_RD then
     if l_pop L && (label =? 0) then
-      flat_map (fun ce => match index_in (fst ce) zi with
-                          | Some j => [addr p (fst ce) (Some j)] | None => [] end) els
+      flat_map (fun ce => if mem_fib (fst ce) zi then [addr p (fst ce) (Some (rank_in (fst ce) zf))]
+                          else []) els
     else []
   else if kind =? K_WR then
     if l_pop L && (label =? 0) then
-      flat_map (fun ce => match index_in (fst ce) zf with
-                          | Some j => [addr p (fst ce) (Some j)] | None => [] end) els
+      flat_map (fun ce => if mem_fib (fst ce) zf then [addr p (fst ce) (Some (rank_in (fst ce) zf))]
+                          else []) els
     else []
   else [].
 
-(* a populate traversal only appends when its first coordinate is not below the largest stored *)
+(* a populate traversal does not insert when its destination rank is uncompressed, or when its
+   first coordinate is not below the largest stored one *)
 Definition appending (L : level) (zi : fib) (e : env) : bool :=
-  match last_coord zi, ref_elems (l_src L) e with
+  l_zufmt L ||
+  match last_coord zi, ref_elems L e with
   | Some m, (c0, _) :: _ => negb (c0 <? m)
   | _, _ => true
   end.
@@ -217,39 +244,51 @@ Fixpoint rows_eqb (a b : list row) : bool :=
   | _, _ => false
   end.
 
-Definition ref_header (i : nat) : row := map (fun r => 100 + r) (iota (S i)) ++ iota (S i) ++ [-1].
+Definition is_proj (L : level) : bool := match l_proj L with Some _ => true | None => false end.
+Definition dflt_level : level :=
+  {| l_pop := false; l_src := SFib 0; l_ufmt := false; l_zufmt := false; l_proj := None; l_shape := 0 |}.
+
+(* loop ranks down to level i; the rank of level i is 50 + i when the level iterates a projection *)
+Definition ref_ranks (i : nat) (proj : bool) : list Z :=
+  iota i ++ [if proj then 50 + Z.of_nat i else Z.of_nat i].
+Definition ref_header (i : nat) (proj : bool) : row :=
+  map (fun r => 100 + r) (ref_ranks i proj) ++ ref_ranks i proj ++ [-1].
 
 Definition is_zside (kind : Z) : bool := (kind =? K_RD) || (kind =? K_WR).
 
 (* one trace file against the property *)
 Definition trace_ok (c : c16_case) (zf : tree) (k : tkey) (content : list row) : bool :=
   let r := key_rank k in
-  let i := Z.to_nat r in
+  let srcrank := 50 <=? r in
+  let i := Z.to_nat (if srcrank then r - 50 else r) in
+  let L := nth i (k_levels c) dflt_level in
   let sp := if (0 <=? r) then space (k_levels c) i [([], k_inputs c)] else [] in
-  let reached := match sp with [] => false | _ => Nat.ltb i (length (k_levels c)) end in
+  let reached := match sp with [] => false | _ => Nat.ltb i (length (k_levels c)) end
+                 && (negb srcrank || is_proj L) in
   match content with
   | [] => negb reached                      (* never registered: empty, header-less file *)
   | hdr :: rows =>
-    let L := nth i (k_levels c) {| l_pop := false; l_src := SFib 0 |} in
     let stamps := map (firstn (S i)) rows in
     let rest := map (skipn (S i)) rows in
     reached
-    && list_eqb hdr (ref_header i)
+    && list_eqb hdr (ref_header i (is_proj L))
     && forallb (fun rw => Nat.eqb (length rw) (2 * S i + 1)) rows
     && chain (if key_kind k =? K_ITER then lex_lt else lex_le) stamps
-    && (if is_zside (key_kind k) then
+    && (if key_kind k =? K_PROJ then true
+        else if is_zside (key_kind k) && negb srcrank then
           (* destination side of a populate: every row lies below a reached point; traversals
-             that only append are addressed exactly, inserting ones are only stamp-ordered *)
+             that do not insert are addressed exactly, inserting ones are only stamp-ordered *)
           forallb (fun rw => existsb (fun q => list_eqb (firstn i rw) (fst q)) sp) rest
           && forallb (fun q =>
                let zi := zdesc (k_z c) (fst q) in
                negb (appending L zi (snd q))
                || rows_eqb (filter (fun rw => list_eqb (firstn i rw) (fst q)) rest)
-                           (expect_at L (key_kind k) (key_label k) zi (zdesc zf (fst q))
+                           (expect_at L false (key_kind k) (key_label k) zi (zdesc zf (fst q))
                                       (fst q) (snd q))) sp
         else
           rows_eqb rest
-            (flat_map (fun q => expect_at L (key_kind k) (key_label k) [] [] (fst q) (snd q)) sp))
+            (flat_map (fun q => expect_at L srcrank (key_kind k) (key_label k) [] [] (fst q) (snd q))
+                      sp))
   end.
 
 Fixpoint all_ok {A} (f : A -> list row -> bool) (ks : list A) (vs : list V) : bool :=
@@ -271,10 +310,21 @@ Definition src_ok (n : nat) (s : src) : bool :=
 Fixpoint distinct_keys (ks : list tkey) : bool :=
   match ks with [] => true | k :: ks' => negb (existsb (key_eqb k) ks') && distinct_keys ks' end.
 
+(* uncompressed input ranks and projections only at the innermost level; a projection level is a
+   populate of a single compressed fiber *)
+Fixpoint fmt_ok (lv : list level) : bool :=
+  match lv with
+  | [] => true
+  | [L] => (negb (is_proj L) || (l_pop L && negb (l_ufmt L)
+                                 && match l_src L with SFib _ => true | SAnd _ _ => false end))
+           && (0 <=? l_shape L)
+  | L :: lv' => negb (l_ufmt L) && negb (is_proj L) && fmt_ok lv'
+  end.
+
 Definition c16_wf (c : c16_case) : bool :=
   let d := length (k_levels c) in
   Nat.leb 1 d && Nat.leb d 3
-  && pops_leading (k_levels c)
+  && pops_leading (k_levels c) && fmt_ok (k_levels c)
   && forallb (fun L => src_ok (length (k_inputs c)) (l_src L)) (k_levels c)
   && forallb (fun t => depth_ok d t && sorted_t t) (k_inputs c)
   && match n_pop (k_levels c) with
